@@ -2559,3 +2559,80 @@ func ruleTokSeen(p *Prog, r *Result) {
 	r.floor("calls of next() in parser methods", n, 10)
 }
 
+
+// ---------------- FLOATLIT ----------------
+
+func init() {
+	register("FLOATLIT", "a float literal built by the constant folder prints as a float literal: the text stored into FloatExpr.Data by the expression optimizer comes from a function (or code) in which the formatted number is tested for a decimal point and given one when it has none, and the format is the plain decimal one (strconv 'f' with precision -1: `%v` prints 2.0 as 2, which reads back as an integer, and 1e21 with an exponent the lexer splits)", ruleFloatLit)
+}
+
+func ruleFloatLit(p *Prog, r *Result) {
+	ot := p.Named("ExpressionOptimizer")
+	if ot == nil {
+		r.undecided("anchor: ExpressionOptimizer not found")
+		return
+	}
+	goodFormatter := func(f *ssa.Function) bool {
+		plain, dotTest, dotAdd := false, false, false
+		allInstrs(f, func(in ssa.Instruction) {
+			switch x := in.(type) {
+			case *ssa.Call:
+				switch p.calleeName(&x.Call) {
+				case "strconv.FormatFloat", "strconv.AppendFloat":
+					n := len(x.Call.Args)
+					fm, ok1 := constInt(x.Call.Args[n-3])
+					pr, ok2 := constInt(x.Call.Args[n-2])
+					if ok1 && ok2 && fm == 'f' && pr == -1 {
+						plain = true
+					}
+				case "strings.Contains", "strings.ContainsRune", "strings.IndexByte", "strings.ContainsAny", "strings.IndexRune":
+					if len(x.Call.Args) == 2 {
+						if sc, ok := constString(x.Call.Args[1]); ok && strings.Contains(sc, ".") {
+							dotTest = true
+						}
+						if k, ok := constInt(x.Call.Args[1]); ok && k == '.' {
+							dotTest = true
+						}
+					}
+				}
+			case *ssa.BinOp:
+				if x.Op == token.ADD {
+					if sc, ok := constString(x.Y); ok && strings.HasPrefix(sc, ".") {
+						dotAdd = true
+					}
+				}
+			}
+		})
+		return plain && dotTest && dotAdd
+	}
+	n := 0
+	for _, fn := range p.methodsOf(ot) {
+		idx := 0
+		allInstrs(fn, func(in ssa.Instruction) {
+			st, ok := in.(*ssa.Store)
+			if !ok {
+				return
+			}
+			o, f, base, ok := fieldOfAddr(st.Addr)
+			if !ok || o == nil || o.Obj().Name() != "FloatExpr" || f != "Data" {
+				return
+			}
+			if _, fresh := base.(*ssa.Alloc); !fresh {
+				return
+			}
+			n++
+			idx++
+			okv := false
+			if c, isC := st.Val.(*ssa.Call); isC {
+				if g := c.Call.StaticCallee(); g != nil && p.InPkg(g) && goodFormatter(g) {
+					okv = true
+				}
+			}
+			if !okv && goodFormatter(fn) {
+				okv = true
+			}
+			r.add(okv, fmt.Sprintf("%s|FloatExpr.Data#%d", p.FName(fn), idx), p.InstrPos(st), "the text of a folded float literal is plain decimal and always has a decimal point")
+		})
+	}
+	r.floor("float literals built by the folder", n, 2)
+}
